@@ -31,7 +31,15 @@ def run(prop, tier):
     v.bounded = [dict(part="_compute_kil/_active_columns/read_kil", bound=f"KOL low nibble and KOH symbolic, KOL high nibble in {list(his)}, both polarities, <= 3 keys in arbitrary state ({len(sets)} key sets), all other keys idle",
                       note="bounded in the number of simultaneously non-idle keys"),
                  dict(part="scan_tick", bound="one key in arbitrary state, the others idle, default thresholds", note="per-key loop body proved for all states by unit_automaton"),
-                 dict(part="Rust keyboard.rs", bound="not run", note="not decided")]
+]
+    from props import rust_standin as RS
+    vec = dict(keyboard=dict(press_thresholds=[6, 1, 2, 3] if tier == "quick" else [6, 1, 2, 3, 4, 5, 7, 12]))
+    res = RS.run(vec, ["keyboard"])
+    v.absorb(RS.reports(res, vec, ["keyboard"]), known, expect_obligations=False)
+    v.obligations, v.discharged = proved
+    v.bounded.append(RS.summarize(res, "keyboard", "KeyboardMatrix on the compiled crate, laws stated in the Rust test from the property text: each of the 88 keys x both column polarities x press thresholds "
+                                                   f"{vec['keyboard']['press_thresholds']}: silent while its column is not strobed, no event and no row bit before the debounce interval, exactly one press event and exactly its row bit after it, "
+                                                   "repeat events at delay 24 then every 6 ticks, row bit gone and exactly one release event after the release interval; FIFO capacity/drop-oldest/order for 1..12 events; KEYI gating"))
     v.assumptions = [
         "per-key representation invariant: not debounced => 0 <= press_ticks < press_threshold and release_ticks = 0; debounced => 0 <= release_ticks < release_threshold; repeat_ticks >= 0 (proved established by press/release/inject/release_all and preserved by _update_key_state; load_state takes it as a precondition)",
         "tick counters and thresholds are unbounded mathematical integers; thresholds >= 1, repeat settings >= 0 (the constructor clamps them so)",
